@@ -129,10 +129,6 @@ func khHostsField(r *rand.Rand) string {
 	return strings.Join(ps, ",")
 }
 
-type khFileLine struct {
-	text string // full line without terminator
-}
-
 // khSpaceOnly restricts generated lines to the documented field separator
 // (sshd(8): "fields are separated by spaces"); set for files shown to
 // ssh-keygen, whose marker parser does not take a tab after the marker.
@@ -410,33 +406,39 @@ func (e *khEnv) classify(cb ssh.HostKeyCallback, paths []string, f *khFile, q *k
 		for _, n := range goLines {
 			gm[n] = true
 		}
-		for _, l := range f.lines {
-			if l.Marker == "@revoked" || !l.Valid {
-				continue
-			}
-			ms, mt := kr.MatchStr(l.Hosts, q.Host, q.Port), kr.MatchStruct(l.Hosts, q.Host, q.Port)
-			if ms != mt || gm[l.N] == mt {
-				continue
-			}
-			// this line is matched differently by the package and by both readings
-			if strings.HasPrefix(l.Hosts, "|") {
-				return "knownhosts-match:hashed"
-			}
-			for _, p := range strings.Split(l.Hosts, ",") {
-				p = strings.TrimPrefix(p, "!")
-				if p == "" {
+		// pass 1: lines the package matches differently from both readings;
+		// pass 2: lines it matches differently from the structured reading (the one it
+		// implements) because of a single pattern that both readings decide the other way.
+		for pass := 1; pass <= 2; pass++ {
+			for _, l := range f.lines {
+				if l.Marker == "@revoked" || !l.Valid {
 					continue
 				}
-				g, ok := e.singlePatternGo(p, q.Host, q.Port)
-				if ok && g != kr.MatchStruct(p, q.Host, q.Port) && g != kr.MatchStr(p, q.Host, q.Port) {
-					return "knownhosts-match:" + patternClass(p, q.Host, q.Port)
+				ms, mt := kr.MatchStr(l.Hosts, q.Host, q.Port), kr.MatchStruct(l.Hosts, q.Host, q.Port)
+				if gm[l.N] == mt || (pass == 1 && gm[l.N] == ms) {
+					continue
+				}
+				if strings.HasPrefix(l.Hosts, "|") {
+					return "knownhosts-match:hashed"
+				}
+				for _, p := range strings.Split(l.Hosts, ",") {
+					p = strings.TrimPrefix(p, "!")
+					if p == "" {
+						continue
+					}
+					g, ok := e.singlePatternGo(p, q.Host, q.Port)
+					if ok && g != kr.MatchStruct(p, q.Host, q.Port) && g != kr.MatchStr(p, q.Host, q.Port) {
+						return "knownhosts-match:" + patternClass(p, q.Host, q.Port)
+					}
+				}
+				if pass == 1 {
+					feat := "list"
+					if strings.Contains(l.Hosts, "!") {
+						feat = "negation"
+					}
+					return "knownhosts-match:interaction:" + feat
 				}
 			}
-			feat := "list"
-			if strings.Contains(l.Hosts, "!") {
-				feat = "negation"
-			}
-			return "knownhosts-match:interaction:" + feat
 		}
 	}
 	kinds := map[string]bool{}
